@@ -295,6 +295,16 @@ class Evaluator:
         st.heap[oid] = dict(attrs or {})
         return Inst(cls, oid)
 
+    def hp(self, st: State, oid: int) -> Dict[str, Any]:
+        """Fields of an object: in the current heap, or among the objects built while folding module / class level
+        constants (UnitPropsDict[...] holds NamedTuple instances)."""
+        h = st.heap.get(oid)
+        if h is None:
+            h = self.__dict__.setdefault('const_heap', {}).get(oid)
+            if h is None:
+                raise Undecided(f'object #{oid} is not in scope')
+        return h
+
     def new_list(self, st: State, items) -> Lst:
         oid = next(_OID)
         st.heap[oid] = {'$items': list(items)}
@@ -304,9 +314,9 @@ class Evaluator:
         if isinstance(v, Tup):
             return v.items
         if isinstance(v, Lst):
-            return st.heap[v.oid]['$items']
+            return self.hp(st, v.oid)['$items']
         if isinstance(v, Inst) and self.prog.is_namedtuple(v.cls):
-            return [st.heap[v.oid].get(f, NONE) for f in self.prog.namedtuple_fields(v.cls)]
+            return [self.hp(st, v.oid).get(f, NONE) for f in self.prog.namedtuple_fields(v.cls)]
         return None
 
     def scalar(self, v: AV) -> RF:
@@ -391,7 +401,7 @@ class Evaluator:
         if isinstance(v, Tup):
             return len(v.items) > 0
         if isinstance(v, Lst):
-            return len(st.heap[v.oid]['$items']) > 0
+            return len(self.hp(st, v.oid)['$items']) > 0
         if isinstance(v, (ClassRef, FuncRef, ExtRef, ModRef)):
             return True
         if isinstance(v, SymObj):
@@ -597,11 +607,13 @@ class Evaluator:
                     v = Tup([Const(e.value) for e in elts])
                     cache[key] = v
                     return v
+            tmp = State()
             try:
-                v = self.eval(val, State(), Ctx(m, None, None, ctx.depth + 1))
+                v = self.eval(val, tmp, Ctx(m, None, None, ctx.depth + 1))
             except Undecided:
                 v = SymObj(f'{m.name.split(".")[-1]}.{n}')
-            if isinstance(v, (Scalar, Const, EnumVal, Tup)):
+            self.__dict__.setdefault('const_heap', {}).update(tmp.heap)
+            if isinstance(v, (Scalar, Const, EnumVal, Tup, DictVal)):
                 cache[key] = v
             return v
         raise Undecided(f'name {name}')
@@ -855,7 +867,9 @@ class Evaluator:
                         scope.env[other] = self.class_attr(owner, other, ctx)
                     except Undecided:
                         pass
-            return self.eval(val, scope, Ctx(owner.module, None, None, ctx.depth + 1))
+            v_ = self.eval(val, scope, Ctx(owner.module, None, None, ctx.depth + 1))
+            self.__dict__.setdefault('const_heap', {}).update(scope.heap)
+            return v_
         m = self.prog.find_method(ci, attr)
         if m is not None:
             return FuncRef(m)
@@ -867,7 +881,7 @@ class Evaluator:
 
     def getattr(self, base: AV, attr: str, st: State, ctx: Ctx, node=None) -> AV:
         if isinstance(base, Inst):
-            attrs = st.heap[base.oid]
+            attrs = self.hp(st, base.oid)
             if attr in attrs:
                 return attrs[attr]
             m = self.prog.find_method(base.cls, attr)
@@ -1341,7 +1355,8 @@ class Evaluator:
             if isinstance(x, SymObj):
                 return SymObj(f'{name}({x.path})')
         if mod == 'math' or (mod == 'builtins' and name in ('abs', 'min', 'max', 'float', 'int', 'round')):
-            return self.lift(lambda *xs: self.math_call(mod, name, list(xs), st, ctx), *args)
+            extra = [kwargs[k] for k in sorted(kwargs)] if name == 'round' else []
+            return self.lift(lambda *xs: self.math_call(mod, name, list(xs), st, ctx), *(list(args) + extra))
         if mod == 'object' and name == '__new__':
             if isinstance(args[0], ClassRef):
                 return self.new_inst(st, args[0].ci, {})
@@ -1377,7 +1392,7 @@ class Evaluator:
             if name == 'getattr' and len(args) >= 2 and isinstance(args[1], Const) and isinstance(args[1].value, str):
                 def _ga(o: AV) -> AV:
                     if isinstance(o, Inst):
-                        h_ = st.heap[o.oid]
+                        h_ = self.hp(st, o.oid)
                         if args[1].value in h_:
                             return h_[args[1].value]
                         if self.prog.find_method(o.cls, args[1].value) is not None or \
@@ -1392,7 +1407,7 @@ class Evaluator:
                 return self.lift(_ga, args[0])
             if name == 'hasattr' and len(args) == 2 and isinstance(args[1], Const):
                 o = args[0]
-                if isinstance(o, Inst) and args[1].value in st.heap[o.oid]:
+                if isinstance(o, Inst) and args[1].value in self.hp(st, o.oid):
                     return TRUE
                 return Cond(Test('opaque', key=f'hasattr({self.describe(o)}, {args[1].value})'), TRUE, FALSE)
             if name in ('min', 'max', 'sum', 'any', 'all') and len(args) == 1:
@@ -1470,6 +1485,10 @@ class Evaluator:
                 return Const(f'<float {xs[0].value.strip().lower()}>')
             raise Undecided('number from string')
         v = [self.scalar(x) for x in xs]
+        if name == 'isclose':
+            return Cond(Test('opaque', key=f'isclose({v[0]!r}, {v[1]!r})'), TRUE, FALSE)
+        if name == 'isnan':
+            return Cond(Test('opaque', key=f'isnan({v[0]!r})'), TRUE, FALSE)
         if name == 'float':
             return Scalar(v[0])
         if name == 'int':
